@@ -211,7 +211,7 @@ def handleQ (d : D) (e : QEv) : D :=
 /-- end of a scheduling round: handle the queued simcalls in order, then `handle_ended_actions` -/
 def flush (d : D) : D :=
   let d := d.q.foldl handleQ { d with q := [] }
-  if d.s.crashed then d else setS d (handleEnded (d.s.nActs + 1) d.s)
+  if d.s.crashed then d else setS d (handleEndedAll d.s)
 
 def applyFault (d : D) (on isHost : Bool) (idx : Nat) (date : String) : D :=
   handleQ d (.ctl on isHost idx date)
@@ -462,7 +462,7 @@ def procLines : List (List String) → D → D
         let d := { d with s := prot.foldl (fun s id => s.setAct id (fun x => { x with links := [] })) d.s }
         let d := procLine d l
         -- ... the failed activities are finished first ...
-        let d := if d.s.crashed then d else setS d (handleEnded (d.s.nActs + 1) d.s)
+        let d := if d.s.crashed then d else setS d (handleEndedAll d.s)
         -- ... then the completed ones
         let d := saved.foldl (fun d p =>
           setS d (complete (d.s.setAct p.1 (fun x => { x with links := p.2 })) p.1)) d
